@@ -428,6 +428,22 @@ pub enum Mirror {
     List(remoc::robs::list::MirroredList<u8>),
 }
 
+/// s.recv(), optionally with every recv future dropped at its p-th poll and retried (at most 60 times in a row).
+macro_rules! recv_maybe_cancelled {
+    ($s:expr, $p:expr) => {{
+        let mut tries = 0u32;
+        loop {
+            match $p {
+                Some(p) if tries < 60 => match crate::util::cancel_at($s.recv(), p).await {
+                    crate::util::Cancelled::Done(r) => break r,
+                    crate::util::Cancelled::Cancelled(_) => tries += 1,
+                },
+                _ => break $s.recv().await,
+            }
+        }
+    }};
+}
+
 impl Sub {
     pub fn mirror(self, max_size: usize) -> Mirror {
         match self {
@@ -441,11 +457,17 @@ impl Sub {
 
     /// Consumes the event stream by hand onto a plain collection until it ends.
     pub async fn by_hand(self) -> Seen {
-        self.by_hand_traced(None).await
+        self.by_hand_opts(None, None).await
+    }
+
+    pub async fn by_hand_traced(self, trace: Option<crate::util::Shared<Vec<String>>>) -> Seen {
+        self.by_hand_opts(trace, None).await
     }
 
     /// Like by_hand; additionally records the replica's state before every recv once the initial value is complete.
-    pub async fn by_hand_traced(self, trace: Option<crate::util::Shared<Vec<String>>>) -> Seen {
+    /// `cancel`: every recv() future is dropped at its p-th poll and recv() is called again (an event loop
+    /// with a timeout or select around recv()).
+    pub async fn by_hand_opts(self, trace: Option<crate::util::Shared<Vec<String>>>, cancel: Option<u32>) -> Seen {
         let mut seen = Seen::default();
         match self {
             Sub::Vec(mut s) => {
@@ -456,7 +478,7 @@ impl Sub {
                             t.lock().unwrap().push(format!("{v:?}"));
                         }
                     }
-                    match s.recv().await {
+                    match recv_maybe_cancelled!(s, cancel) {
                         Ok(Some(e)) => match e {
                             VecEvent::Push(x) => v.push(x),
                             VecEvent::Pop => {
@@ -538,7 +560,7 @@ impl Sub {
                             t.lock().unwrap().push(format!("{:?}", v.iter().copied().collect::<Vec<_>>()));
                         }
                     }
-                    match s.recv().await {
+                    match recv_maybe_cancelled!(s, cancel) {
                         Ok(Some(e)) => match e {
                             VecDequeEvent::PushBack(x) => v.push_back(x),
                             VecDequeEvent::PushFront(x) => v.push_front(x),
@@ -616,7 +638,7 @@ impl Sub {
                             t.lock().unwrap().push(format!("{:?}", m.iter().map(|(k, x)| (*k, *x)).collect::<BTreeMap<_, _>>()));
                         }
                     }
-                    match s.recv().await {
+                    match recv_maybe_cancelled!(s, cancel) {
                         Ok(Some(e)) => match e {
                             HashMapEvent::Set(k, x) => {
                                 m.insert(k, x);
@@ -649,7 +671,7 @@ impl Sub {
                             t.lock().unwrap().push(format!("{:?}", m.iter().copied().collect::<BTreeSet<_>>()));
                         }
                     }
-                    match s.recv().await {
+                    match recv_maybe_cancelled!(s, cancel) {
                         Ok(Some(e)) => match e {
                             HashSetEvent::Set(k) => {
                                 m.insert(k);
@@ -682,7 +704,7 @@ impl Sub {
                             t.lock().unwrap().push(format!("{v:?}"));
                         }
                     }
-                    match s.recv().await {
+                    match recv_maybe_cancelled!(s, cancel) {
                         Ok(Some(remoc::robs::list::ListEvent::Push(x))) => v.push(x),
                         Ok(Some(remoc::robs::list::ListEvent::Done)) => seen.done = true,
                         Ok(Some(_)) => seen.complete = true,
@@ -850,6 +872,10 @@ impl Scenario for SeqScenario {
                     mirrors.push((format!("{label}/mirror"), m));
                     let sub = c.subscribe(inc);
                     hands.push((format!("{label}/hand"), env.spawn("hand", 1, sub.by_hand())));
+                    for p in [1u32, 2] {
+                        let sub = c.subscribe(inc);
+                        hands.push((format!("{label}/hand-cancel{p}"), env.spawn("hand", 1, sub.by_hand_opts(None, Some(p)))));
+                    }
                     if let Some((tx, _, _)) = ship.as_mut() {
                         if let Err(e) = tx.send((format!("{label}/remote-mirror"), c.subscribe(inc))).await {
                             o2.lock().unwrap().err = Some(format!("ship: {e}"));
